@@ -1,5 +1,6 @@
 """C05 - which effects run is a fixed function of state, run mode and effect category."""
 import json
+import re
 
 import common as C
 from harness import mem
@@ -323,6 +324,10 @@ def spec_decide(st, mode, es, is_default, has_chance, is_online, online_runs):
     return False
 
 
+class Invalid(Exception):
+    """The op sequence itself is ill-formed (only the shrinker produces such sequences)."""
+
+
 class ImplWorld:
     """One fit in one solar system, driven op by op; keeps its own record of what was requested (shadow)
     so the oracle can recompute the expected running sets without asking the resolver."""
@@ -383,6 +388,8 @@ class ImplWorld:
                                      'onfit': False, 'type': op['type'], 'modes': {}, 'ctype': None, 'cmodes': {}}
                 return 'ok'
             if o in ('attach', 'detach'):
+                if self.attached == (o == 'attach'):
+                    raise Invalid(o)
                 (self.ss.fits.add if o == 'attach' else self.ss.fits.remove)(self.fit)
                 self.attached = o == 'attach'
                 return 'ok'
@@ -390,7 +397,12 @@ class ImplWorld:
                 self.ss.source = None if op['k'] is None else self.srcs[op['k']][1]
                 self.source = op['k']
                 return 'ok'
+            if op['id'] not in self.items:
+                raise Invalid(o)
             it, sh = self.items[op['id']], self.sh[op['id']]
+            if (o == 'remove' and not sh['onfit']) or (o == 'modes' and op['who'] and sh['ctype'] is None) or (
+                    o == 'add' and sh['onfit'] and sh['kind'] in SINGLE):
+                raise Invalid(o)
             if o == 'add':
                 if sh['kind'] in SINGLE:
                     setattr(self.fit, SINGLE[sh['kind']], it)
@@ -446,6 +458,8 @@ class ImplWorld:
                 e = int(fighter_ability_map[op['a']])
                 sh['modes'][e] = int(it.get_effect_mode(e))
             return 'ok'
+        except Invalid:
+            raise
         except Exception as e:  # the class name is the observation; unexpected classes disagree with the model
             return type(e).__name__
 
@@ -614,15 +628,20 @@ def run_history(desc, ops, rep=None, compare=True, oracle=True, tag=''):
 
 def shrink(desc, ops, kind):
     """Delete-one-op to a fixpoint while the same kind of problem is still found."""
+    def cls(f):
+        return re.sub(r'[0-9]+', '#', f[1] if kind == 'violate' else f[1][0].split('|')[0])[:40]
+
     def bad(cand):
         try:
             f = run_history(desc, cand, compare=(kind == 'disagree'), oracle=(kind == 'violate'))
-        except Exception:
+        except (Invalid, C.InfraError):
             return None
-        return f if f and f[0] == kind else None
+        return f if f and f[0] == kind and (want is None or cls(f) == want) else None
+    want = None
     best = bad(ops)
     if not best:
         return None
+    want = cls(best)
     ops = best[2]['ops']
     changed = True
     while changed and len(ops) > 1:
